@@ -4,6 +4,8 @@ pub(crate) mod ebr_impl;
 mod strong;
 mod utils;
 mod weak;
+#[cfg(feature = "circ_verif")]
+pub mod verif;
 
 pub use ebr_impl::{cs, Guard};
 pub use strong::*;
